@@ -153,8 +153,8 @@ struct DomExec {
     return resolve(root, m, p2);
   }
   static int wanted_kind(const std::string& k) {
-    if (k == "AddMember" || k == "RemoveMember" || k == "EraseMember" || k == "MemberReserve" || k == "CreateMap" || k == "DestroyMap" || k == "Lookup") return 0;
-    if (k == "PushBack" || k == "PopBack" || k == "Erase" || k == "Reserve") return 1;
+    if (k == "AddMember" || k == "AddMemberN" || k == "RemoveMember" || k == "EraseMember" || k == "MemberReserve" || k == "CreateMap" || k == "DestroyMap" || k == "Lookup") return 0;
+    if (k == "PushBack" || k == "PushBackN" || k == "PopBack" || k == "Erase" || k == "Reserve") return 1;
     if (k == "Clear") return 2;
     return -1;
   }
@@ -179,7 +179,9 @@ struct DomExec {
   template <class N> void check_lookups(N& n, JVal& m, bool may_map) {
     if (m.k != JVal::Obj || !n.IsObject()) return;
     std::vector<std::string> keys;
-    for (auto& kv : m.o) { bool dup = false; for (auto& k : keys) if (k == kv.first) dup = true; if (!dup && keys.size() < 12) keys.push_back(kv.first); }
+    size_t stride = m.o.size() > 12 ? m.o.size() / 12 + 1 : 1, off = m.o.size() > 12 ? (size_t)(cur_op % (int)stride) : 0;
+    for (size_t qi = off; qi < m.o.size(); qi += stride) { auto& kv = m.o[qi]; bool dup = false; for (auto& k : keys) if (k == kv.first) dup = true; if (!dup && keys.size() < 14) keys.push_back(kv.first); }
+    if (!m.o.empty() && m.find(m.o.back().first) >= 0) { bool dup = false; for (auto& k : keys) if (k == m.o.back().first) dup = true; if (!dup) keys.push_back(m.o.back().first); }
     size_t present = keys.size();
     keys.push_back("zz"); keys.push_back("");
     if (present) { std::string k = keys[0]; if (k.empty()) k = "\x01"; else k[k.size() - 1] ^= 1; keys.push_back(k); k = keys[0] + "x"; keys.push_back(k); }
@@ -588,6 +590,32 @@ struct DomExec {
       if (&r != &n) violate("model", site("return"), "PushBack did not return *this");
       m.a.push_back(std::move(v)); ob = "pb"; return true;
     }
+    if (k == "PushBackN") {   // bulk growth: capacity 16 -> 24 -> 36 -> 54
+      if (m.k != JVal::Arr) return false;
+      size_t cnt = (size_t)((uint64_t)op.A(1) % 48) + 1;
+      for (size_t i = 0; i < cnt; i++) {
+        JVal v = (i % 5 == 4) ? JVal::str("e" + std::to_string(i)) : JVal::uint(i * 3 + 1);
+        N tmp; build(tmp, v, alloc, bc);
+        n.PushBack(std::move(tmp), alloc);
+        m.a.push_back(std::move(v));
+      }
+      probe("bulk_pushback"); ob = "pbn"; return true;
+    }
+    if (k == "AddMemberN") {
+      if (m.k != JVal::Obj) return false;
+      size_t cnt = (size_t)((uint64_t)op.A(1) % 48) + 1;
+      for (size_t i = 0; i < cnt; i++) {
+        std::string key = "n" + std::to_string(cur_op) + "_" + std::to_string(i);
+        JVal v = (i % 4 == 3) ? JVal::str("v" + std::to_string(i)) : JVal::sint((int64_t)i - 7);
+        N tmp; build(tmp, v, alloc, bc);
+        if (op.A(2) & 1) { CBuf kb(key); n.AddMember(StringView(kb.data, key.size()), std::move(tmp), alloc, true); kb.release(); }
+        else n.AddMember(StringView(bc.konst(key), key.size()), std::move(tmp), alloc, false);
+        m.o.emplace_back(key, std::move(v));
+      }
+      probe("bulk_addmember"); if (m.has_map) probe("bulk_addmember_with_map"); ob = "amn";
+      if (chk & CHK_LOOKUP) check_lookups(n, m, s.may_map);
+      return true;
+    }
     if (k == "PopBack") {
       if (m.k != JVal::Arr || m.a.empty()) return false;
       n.PopBack(); m.a.pop_back(); ob = "pp"; return true;
@@ -814,7 +842,7 @@ struct Gen {
     static const char* kinds[] = {"AddMember", "AddMember", "AddMember", "AddMember", "AddMember", "AddMember", "RemoveMember", "RemoveMember", "RemoveMember", "RemoveMember",
                                   "EraseMember", "MemberReserve", "PushBack", "PushBack", "PushBack", "PushBack", "PopBack", "PopBack", "Erase", "Erase", "Reserve", "Clear",
                                   "Assign", "Assign", "SetNull", "SetBool", "SetInt", "SetUint", "SetDouble", "SetStr", "SetStr", "SetArray", "SetObject",
-                                  "CopyFrom", "CopyFrom", "MoveNode", "SwapNode", "CreateMap", "CreateMap", "CreateMap", "DestroyMap", "AtPointer", "AtPointer", "Lookup", "Build"};
+                                  "CopyFrom", "CopyFrom", "MoveNode", "SwapNode", "CreateMap", "CreateMap", "CreateMap", "DestroyMap", "AtPointer", "AtPointer", "Lookup", "Build", "PushBackN", "AddMemberN"};
     const char* k = kinds[r.below(sizeof(kinds) / sizeof(kinds[0]))];
     Op& op = add(k);
     op.a.push_back(slot());
@@ -825,6 +853,7 @@ struct Gen {
     op.s.push_back(pth);
     if (kn == "AddMember") { op.a.push_back((int64_t)r.below(2)); op.s.push_back(model::gen_key(r, go)); op.s.push_back(val(r.chance(1, 4) ? 2 : 1)); if (r.chance(1, 25)) op.fault = FT_STRCOPY_FAIL; }
     else if (kn == "RemoveMember") op.s.push_back(model::gen_key(r, go));
+    else if (kn == "PushBackN" || kn == "AddMemberN") { op.a.push_back((int64_t)(r.chance(1, 2) ? r.below(48) : r.below(12))); op.a.push_back((int64_t)r.below(2)); }
     else if (kn == "EraseMember" || kn == "Erase") { op.a.push_back((int64_t)r.below(8)); op.a.push_back((int64_t)r.below(r.chance(1, 2) ? 2 : 8)); op.a.push_back((int64_t)r.below(2)); }
     else if (kn == "MemberReserve" || kn == "Reserve") op.a.push_back((int64_t)(r.chance(1, 3) ? r.below(70) : r.below(20)));
     else if (kn == "PushBack") op.s.push_back(val(r.chance(1, 4) ? 2 : 1));
@@ -961,6 +990,7 @@ static void gen_c02(uint64_t seed, uint64_t run, const std::string& tier, Plan& 
       else if (tm < 9 && !last.empty()) t = last.substr(0, g.r.below(last.size() + 1));
       else if (tm < 10) { t = g.text_valid(2, 2); t = g.mutate(g.mutate(t)); }
       else if (tm < 11) { size_t len = g.r.below(40); for (size_t j = 0; j < len; j++) t += (char)g.r.below(256); }
+      else if (g.r.chance(1, 12)) { size_t cnt = (size_t)g.r.range(9000, 14000); t = "["; for (size_t q = 0; q < cnt; q++) { if (q) t += ','; t += std::to_string(q * 7919 % 100000); } if (g.r.chance(3, 4)) t += "]"; }
       else { model::GenOpts go2 = g.go; go2.max_children = 30; go2.max_depth = 2; std::string big; model::WriteOpts wo; wo.ws_rng = &g.r; wo.ws_max = 3; model::write(model::gen_value(g.r, go2), big, wo); t = big; }
       last = t;
       op.s.push_back(t);
